@@ -283,6 +283,10 @@ def run(prop: str, tier: str, seed: int) -> int:
                 pass
     for mm in mismatches[:5]:
         R.engine_errors.append("concolic mismatch: " + mm)
+    # ---------------- engine differential test: interpreter vs CPython on concrete trees, no contracts
+    from . import engine_diff
+
+    diff_summary = engine_diff.report(R, engine_diff.rules_diff(), "rules on concrete trees")
     # ---------------- vacuity guards
     if n_obl == 0:
         R.engine_errors.append("no obligations generated")
@@ -308,7 +312,9 @@ def run(prop: str, tier: str, seed: int) -> int:
         "applicable_paths_per_configuration": dict(per_cfg_app),
         "functions_under_contract": FUNCTIONS,
         "samples": samples,
-        "traces_validated_against_impl": validated,
+        "traces_validated_against_impl": validated + int(diff_summary.get("agree", 0) or 0),
+        "concolic_paths_replayed_on_cpython": validated,
+        "engine_differential": diff_summary,
         "of_which_inapplicable_paths": validated_neg,
         "canaries_refuted": len([c for c in canaries if c["status"] == "proved"]),
         "vacuous_paths_never_both_defined": vacuous,
